@@ -54,6 +54,12 @@ def miri_cases(draw):
 
 def fixed_cases(tier):
     out = [{"limits_matrix": r} for r in M.REPRS]      # deterministic: enums sitting on every integer type's limits
+    # run-length and run-count matrices with every unsafe-site feature on, in the table modes and in the defaults
+    allf = ["try_from", "TryFrom", "from_str", "FromStr", "MIN", "MAX", "next", "next_back", "iter", "range", "as_str", "names"]
+    specs = C.run_length_specs({(1, 64), (64, 64), (65, 64), (63, 65), (128, 128), (129, 63), (256, 63), (257, 65)}) + C.run_count_specs([64, 65, 128, 129, 256, 257])
+    for spec in specs:
+        out.append({"spec": spec, "cfg": S.simple_config(allf), "seed": 11})
+        out.append({"spec": spec, "cfg": S.simple_config(allf, {"iter": "table", "as_str": "table", "from_str": "table", "FromStr": "table"}), "seed": 12})
     if not miri.available():
         return out
     n = MIRI_CASES[tier]
